@@ -5,16 +5,17 @@
       fault schedule (drops, duplicates, reorderings, in any number): the receiver's file is always
       a block prefix of the sender's, success of the receiver means the exact file, success of the
       sender implies success of the receiver ([C04_closed_system_safe], files up to 65535 blocks);
-    - it is LIVE without faults and with any ONE lost datagram, DATA or ACK, wherever it falls
-      ([C04_no_loss_completes], [C04_one_lost_data_completes], [C04_one_lost_ack_completes];
+    - it is LIVE without faults, with any ONE lost datagram and with any ONE repeated datagram,
+      DATA or ACK, wherever it falls ([C04_no_loss_completes], [C04_one_lost_data_completes],
+      [C04_one_lost_ack_completes], [C04_one_repeated_data_completes], [C04_one_repeated_ack_completes];
       duplicate-packets mode off), the lost final ACK being the exception RFC 1350 allows;
     - the local mechanisms of recovery (stale ACKs inert and free, retry budget counts failed
       receives only, repeated block re-triggers the ACK).
-    What is proved only on a finite domain (exhaustive computation inside Coq): single duplicated
-    or reordered datagrams, on small transfers ([C04_single_fault_small]).  The general statement
-    for those two kinds of fault, and for several faults within the retry budget, is NOT proved
-    ([C04_single_fault_statement] stays visible, its instance for losses is proved); beyond the
-    finite domain it is decided by the W-PAIR co-simulation suite. *)
+    What is proved only on a finite domain (exhaustive computation inside Coq): a single
+    reordered (held and swapped) datagram, on small transfers ([C04_single_fault_small]).  The
+    general statement for reorderings, and for several faults within the retry budget, is NOT
+    proved ([C04_single_fault_statement] stays visible, its instances for losses and repetitions
+    are proved); beyond that it is decided by the W-PAIR co-simulation suite. *)
 From Tftp Require Import Base.Prelude Model.Types Model.Consts Model.Codec Model.Window Model.Worker Model.Spec
   Model.Server Model.Net Proofs.CodecP Proofs.SpecP Proofs.WindowP Proofs.SendP Proofs.RecvP Proofs.NetP
   Proofs.CosimP Proofs.CosimLive.
@@ -112,8 +113,23 @@ Theorem C04_one_lost_ack_completes : forall sc rc F,
     (s_phase (p_s p) = SDone OutOk \/ ch_n (p_rs p) = i + 1).
 Proof. exact cosim_ack_drop. Qed.
 
-(** The full closed-system statement for every kind of single fault (NOT proved for duplicates
-    and reorderings; kept visible): for every file, block size,
+Theorem C04_one_repeated_data_completes : forall sc rc F,
+  wf_params (s_blk sc) (s_ws sc) -> r_blk rc = s_blk sc -> r_ws rc = s_ws sc -> s_check sc = false ->
+  s_fails sc = [] -> r_fails rc = [] -> s_rep sc = 1 -> r_rep rc = 1 -> 0 < s_tmo sc ->
+  forall i, exists fuel,
+    let p := pair_run sc rc [(i, NfDup)] [] fuel (pair_init sc rc [(i, NfDup)] F) in
+    r_phase (p_r p) = RDone OutOk /\ written_bytes (w_file (r_w (p_r p))) = F /\ s_phase (p_s p) = SDone OutOk.
+Proof. exact cosim_data_dup. Qed.
+Theorem C04_one_repeated_ack_completes : forall sc rc F,
+  wf_params (s_blk sc) (s_ws sc) -> r_blk rc = s_blk sc -> r_ws rc = s_ws sc -> s_check sc = false ->
+  s_fails sc = [] -> r_fails rc = [] -> s_rep sc = 1 -> r_rep rc = 1 -> 0 < s_tmo sc ->
+  forall i, exists fuel,
+    let p := pair_run sc rc [] [(i, NfDup)] fuel (pair_init sc rc [] F) in
+    r_phase (p_r p) = RDone OutOk /\ written_bytes (w_file (r_w (p_r p))) = F /\ s_phase (p_s p) = SDone OutOk.
+Proof. exact cosim_ack_dup. Qed.
+
+(** The full closed-system statement for every kind of single fault (NOT proved for
+    reorderings; kept visible): for every file, block size,
     window size and every single fault, the co-simulation ends like the finite instances above. *)
 Definition C04_single_fault_statement : Prop :=
   forall (blk ws : N) (F : bytes) (dir : bool) (i : N) (k : fault), 0 < blk -> 1 <= ws <= 65535 ->
@@ -125,17 +141,18 @@ Definition C04_single_fault_statement : Prop :=
     let p := pair_run sc rc f1 f2 fuel (pair_init sc rc f1 F) in
     r_phase (p_r p) = RDone OutOk /\ recv_final_file rc (p_r p) <> None.
 
-(** ... and its instance for a lost datagram, in either direction, which is proved. *)
-Theorem C04_single_fault_statement_for_losses :
-  forall (blk ws : N) (F : bytes) (dir : bool) (i : N), 0 < blk -> 1 <= ws <= 65535 ->
+(** ... and its instances for a lost and for a repeated datagram, in either direction, which are proved. *)
+Theorem C04_single_fault_statement_for_losses_and_repeats :
+  forall (blk ws : N) (F : bytes) (dir : bool) (i : N) (k : fault), 0 < blk -> 1 <= ws <= 65535 ->
+  k = NfDrop \/ k = NfDup ->
   exists fuel,
     let sc := mk_scfg blk ws 1000000000 1 false [] in
     let rc := mk_rcfg blk ws 1000000000 1 true [] in
-    let f1 := if dir then [(i, NfDrop)] else [] in
-    let f2 := if dir then [] else [(i, NfDrop)] in
+    let f1 := if dir then [(i, k)] else [] in
+    let f2 := if dir then [] else [(i, k)] in
     let p := pair_run sc rc f1 f2 fuel (pair_init sc rc f1 F) in
     r_phase (p_r p) = RDone OutOk /\ recv_final_file rc (p_r p) <> None.
-Proof. exact single_loss_statement. Qed.
+Proof. exact single_loss_or_repeat_statement. Qed.
 
 Example C04_ex_lost_ack :
   single_fault_ok 1 (pattern_file 17) false 0 NfDrop = true /\ single_fault_ok 2 (pattern_file 17) true 1 NfHold = true.
@@ -145,7 +162,9 @@ Print Assumptions C04_closed_system_safe.
 Print Assumptions C04_no_loss_completes.
 Print Assumptions C04_one_lost_data_completes.
 Print Assumptions C04_one_lost_ack_completes.
-Print Assumptions C04_single_fault_statement_for_losses.
+Print Assumptions C04_one_repeated_data_completes.
+Print Assumptions C04_one_repeated_ack_completes.
+Print Assumptions C04_single_fault_statement_for_losses_and_repeats.
 Print Assumptions C04_download_completes.
 Print Assumptions C04_upload_completes.
 Print Assumptions C04_single_fault_small.
